@@ -37,7 +37,7 @@ Section History.
                                           ps_coerce fi (ps_get_attr p o0) = ps_get_attr p o0.
 
   (* visible hypotheses on a history: calls on paths of P, no modify meets a dictionary, and at every dump the listed
-     values can be written (<= 6 fractional digits, of the field's type) *)
+     values can be written (<= 6 fractional digits, top-level values of the field's type) *)
   Fixpoint ps_hhist_ok (o : ps_mobj) (H : list ps_hop) : Prop :=
     match H with
     | [] => True
@@ -46,7 +46,7 @@ Section History.
       (match op with PsOpMod p _ _ => ps_is_dict (ps_get_attr p o) = false | PsOpRes _ _ => True end) /\
       ps_hhist_ok (snd (ps_apply fe o op)) t
     | PsHDump :: t =>
-      (forall k x, In (k, x) (ps_orig_dict o) -> ps_listed_ok fe o0 o k) /\ ps_hhist_ok o t
+      (forall k x, In (k, x) (ps_orig_dict o) -> ps_listed_ok fe o k) /\ ps_hhist_ok o t
     end.
 
   Definition ps_file_inv (pre : list ps_hop) (s : ps_hstate) : Prop :=
@@ -57,7 +57,7 @@ Section History.
     | Some script =>
       exists H1 H2, pre = H1 ++ PsHDump :: H2 /\ forallb (fun h => negb (ps_is_dump h)) H2 = true /\
         let od := fst (ps_hrun fe (o0, None) H1) in
-        ps_reload_inv P o0 od /\ (forall k x, In (k, x) (ps_orig_dict od) -> ps_listed_ok fe o0 od k) /\
+        ps_reload_inv P o0 od /\ (forall k x, In (k, x) (ps_orig_dict od) -> ps_listed_ok fe od k) /\
         ps_dump_modattrs od = Some script
     end.
 
@@ -135,7 +135,7 @@ Definition ps_y_H : list ps_hop :=
    PsHOp (PsOpRes ps_q_bc 4%Z); PsHOp (PsOpRes ps_q_n 5%Z); PsHOp (PsOpRes ps_q_a 6%Z); PsHDump].
 
 Example ps_history_reload_nonvacuous :
-  ps_hhist_ok ps_q_fe ps_q_P ps_q_o0 ps_q_o0 ps_y_H /\
+  ps_hhist_ok ps_q_fe ps_q_P ps_q_o0 ps_y_H /\
   snd (ps_hrun ps_q_fe (ps_q_o0, None) (firstn 4 ps_y_H))
     = Some [(ps_q_n, PsStr [121]); (ps_q_a, PsNum 123456 6); (ps_q_bc, PsDict [([107], PsStr [118])])] /\
   snd (ps_hrun ps_q_fe (ps_q_o0, None) ps_y_H) = Some [].
@@ -145,7 +145,7 @@ Proof.
     try (vm_compute; auto 10; fail); try exact I.
   - intros k x Hin. vm_compute in Hin.
     destruct Hin as [Hin|[Hin|[Hin|[]]]]; inversion Hin; subst; clear Hin;
-      (split; [vm_compute; reflexivity | split; [vm_compute; first [exact I | discriminate]|]]);
+      (split; [vm_compute; reflexivity|]);
       intros Ht; try (vm_compute in Ht; discriminate).
     intros fi Hfi. vm_compute in Hfi. inversion Hfi; subst. split; reflexivity.
   - intros k x Hin. vm_compute in Hin. contradiction.
